@@ -83,6 +83,26 @@ func resTemplate(id string, d ResDef) string {
 		sb.WriteString("apiVersion: verif.example/" + v + "\nkind: Widget\n")
 	case "Gadget":
 		sb.WriteString("apiVersion: verif.example/v1\nkind: Gadget\n")
+	case "CustomResourceDefinition":
+		// a CRD shipped in templates/ (not crds/): an ordinary, cluster-scoped, typed manifest resource; its two
+		// abstract fields live in annotations (a typed object keeps no unknown spec fields)
+		sb.WriteString("apiVersion: apiextensions.k8s.io/v1\nkind: CustomResourceDefinition\n")
+		fmt.Fprintf(&sb, "metadata:\n  name: %s\n", id)
+		if d.Lbl != "" {
+			fmt.Fprintf(&sb, "  labels:\n    app.kubernetes.io/managed-by: %s\n", d.Lbl)
+		}
+		ann := fieldBlock("    ", d)
+		switch d.Pol {
+		case "keep":
+			ann += "    helm.sh/resource-policy: keep\n"
+		case "other":
+			ann += "    helm.sh/resource-policy: retain\n"
+		}
+		if ann != "" {
+			sb.WriteString("  annotations:\n" + ann)
+		}
+		fmt.Fprintf(&sb, "spec:\n  group: verif.example\n  scope: Namespaced\n  names:\n    kind: K%s\n    plural: %ss\n  versions:\n  - name: v1\n    served: true\n    storage: true\n    schema:\n      openAPIV3Schema:\n        type: object\n", id, id)
+		return sb.String()
 	default:
 		panic("unknown kind " + d.Kind)
 	}
